@@ -64,13 +64,27 @@ gv_values = st.one_of(st.sampled_from(['v', '', '/data', '{B}', '{A}', '{U}', 'a
 def gvars(draw):
     as_object = draw(st.booleans())
     names = draw(st.lists(st.sampled_from(NAMES if as_object else NAMES + MAP_NAMES), min_size=1, max_size=4, unique=True))
-    return {'as_object': as_object, 'vals': {n: draw(gv_values) for n in names}}
+    return {'as_object': as_object, 'vals': {n: draw(gv_values) for n in names},
+            'object_flavour': draw(st.sampled_from(['namespace', 'class']))}
 
 
 def make_gv(spec, as_object=None):
     vals = {k: (Path(v['__path__']) if isinstance(v, dict) else v) for k, v in spec['vals'].items()}
     if spec['as_object'] if as_object is None else as_object:
-        return types.SimpleNamespace(**vals), vals
+        flavour = spec.get('object_flavour', 'namespace')
+        ident = {k: v for k, v in vals.items() if k.isidentifier()}
+        if flavour == 'namespace' or len(ident) != len(vals):
+            return types.SimpleNamespace(**vals), vals
+        # "object attributes" are not only instance attributes: constants defined on the class, inherited from a base
+        # class, or provided by a property are attributes of the object just the same (a settings class / module)
+        names = sorted(ident)
+        base = type('SettingsBase', (), {n: ident[n] for n in names[0::3]})
+        props = {n: property(lambda self, _v=ident[n]: _v) for n in names[1::3]}
+        cls = type('Settings', (base,), props)
+        obj = cls()
+        for n in names[2::3]:
+            setattr(obj, n, ident[n])
+        return obj, vals
     return dict(vals), vals
 
 
@@ -260,9 +274,9 @@ def _classes():
     class C11Used(Task):
         class Meta:
             name = 'c11_used'
-            parameters = [Parameter('y')]
+            parameters = [Parameter('y'), Parameter('yns', default=None)]
 
-        def run(self, y) -> dict:
+        def run(self, y, yns) -> dict:
             return {'y': y}
 
     import sys
@@ -279,6 +293,11 @@ def eval_config(case, rec):
     tmp = hyp.scratch_dir('tcv-c11-')
     try:
         keys = []
+        # ONE caller-owned context dict, passed to both configs (two environments): its per-namespace part holds strings
+        # with placeholders inside containers
+        yns = case.get('yns', case['y'])
+        context = {'uses': '{DIR}/ctx2.json', 'for_namespaces': {'n': {'yns': copy.deepcopy(yns)}}}
+        context_before = copy.deepcopy(context)
         for which in ('gv', 'gv2'):
             spec = copy.deepcopy(case[which])
             cfgdir = tmp / which / 'cfg'
@@ -294,13 +313,16 @@ def eval_config(case, rec):
                 'x': copy.deepcopy(x),
                 'obj': {'class': f'{__name__}.C11Obj', 'args': [copy.deepcopy(a0)], 'kwargs': {'k': copy.deepcopy(kv)}},
             }
-            context = {'uses': '{DIR}/ctx2.json'}
             try:
                 config = taskchain.Config(tmp / which / 'data', name='root', data=data, global_vars=gv, context=context)
                 chain = config.chain()
             except Exception as e:
                 raise Violation('config-construction-raised', {'case': case, 'which': which, 'error': repr(e)})
             root, used = chain['c11_root'], chain['n::c11_used']
+            if not strict_eq(context, context_before):
+                raise Violation('caller-context-changed-by-substitution', {'case': case, 'which': which,
+                                                                           'now': repr(context)[:300]})
+            _compare(yns, ref_struct(yns, vals), used.params['yns'], 'per-namespace context value task.params[yns]', case)
             _compare(x, ref_struct(x, vals), config.data['x'], 'config.data[x]', case)
             _compare(x, ref_struct(x, vals), root.params['x'], 'task.params[x]', case)
             _compare(y, ref_struct(y, vals), used.params['y'], 'used-config task.params[y]', case)
@@ -350,7 +372,7 @@ def _plain(v):
 
 config_cases = st.fixed_dictionaries({
     'config': st.just(True), 'gv': gvars(), 'gv2': gvars(),
-    'x': structures, 'y': structures, 'ctxv': structures, 'arg': structures, 'kwarg': leaves,
+    'x': structures, 'y': structures, 'ctxv': structures, 'arg': structures, 'kwarg': leaves, 'yns': structures,
 }).filter(lambda c: not _has_class_key(c))
 
 
